@@ -31,7 +31,7 @@ func c01Case(t *testing.T, root *vw.Rng, ci int, tr *vw.Trace) {
 	wide := r.Chance(3, 10)
 	d := vc.NewDriver(r, nTS, []bool{wide || r.Chance(4, 5), r.Chance(1, 2)}, id)
 	defer d.Cl.Close()
-	d.AckCheck, d.AllTracts = true, true
+	d.AckCheck, d.AllTracts = false, false
 	d.Big = r.Chance(1, 5)
 	d.MaxTracts = r.PickInt(1, 2, 3, 3)
 	if d.Big && d.MaxTracts < 2 {
@@ -49,8 +49,20 @@ func c01Case(t *testing.T, root *vw.Rng, ci int, tr *vw.Trace) {
 		d.W.PReplyLose = 0
 	}
 	steps := vw.Scale(r.Range(25, 70), r.Range(40, 220))
+	if wide {
+		// many client operations are needed before the cache has a gap and a write spans it: longer
+		// schedules, milder faults (every failed operation empties the cache)
+		steps = vw.Scale(r.Range(60, 120), r.Range(100, 300))
+		d.W.PLose, d.W.PFail, d.W.PReplyLose = d.W.PLose/2, d.W.PFail/2, d.W.PReplyLose/2
+		d.W.Read = 14
+	}
 	rounds := r.PickInt(1, 2, 3)
 	for k := 0; k < rounds; k++ {
+		if wide {
+			// a burst of client operations delivered without faults: the blob gets its tracts and the
+			// clients' caches get entries for tracts far apart before the next random round
+			d.Burst(r.Range(6, 16))
+		}
 		d.RunRandom(steps / rounds)
 		if r.Chance(1, 2) {
 			d.Quiesce()
